@@ -220,7 +220,12 @@ LIMITED = False
 class Prop:
     pid = 'C01'
     props_file = 'Props/C01.v'
-    required_theorems = []
+    required_theorems = ['export_inv_preserved', 'quiescent_view_eq_fresh_outside_known',
+                         'no_lost_withdrawal_outside_known', 'fresh_is_export_rules',
+                         'no_lost_withdrawal_refuted_by_id_keying',
+                         'quiescent_view_eq_fresh_refuted_truncated_dump',
+                         'quiescent_view_eq_fresh_refuted_llgr',
+                         'no_lost_withdrawal_refuted_refresh_race']
     correspondence_name = ('Model/ExportTx.v step vs table::Table + event::export::process_nlri_change + '
                            'peer_tx::PendingTx (harness/daemon/export_c01_hx.rs)')
     rule = ('cases = (neighbour role/address/send-max/add-path, source peers, export policy, schedule of table '
@@ -228,8 +233,23 @@ class Prop:
             'the mirror and at least one withdrawal is drained; distinct = distinct (configuration, sequence of '
             'drained message sets)')
     exhaustive = {'quick': False, 'thorough': False}
-    trusted_base = []
-    assumptions = []
+    trusted_base = [
+        'the RIB (table/src/lib.rs) is abstracted to its change stream: a RIB label is the NlriChange the table emits; the '
+        'theorems assume the stream is truthful (flags/replaced id say what changed: the contract property C06 states of the '
+        'table); the python reference RIB that turns table operations into labels is compared with the changes the real '
+        'table emits on every case',
+        'export filtering/rewriting is abstracted to vis : path -> bool (echo, split horizon, RS isolation) and '
+        'pol : llgr -> prefix -> path -> option payload (RTC, policy, rewrite), arbitrary in the theorems; the wire codec '
+        'is abstracted to the set of (prefix, path id, payload) a message carries (property C04), and exercised for real by '
+        'the session-level harness (PeerCodec::encode_to over a socket, independent try_parse/validate_message)',
+        'one shard, one family, one observed neighbour; a lock section / channel send / handle_prefix_update / flush_tx is '
+        'one atomic step (std::sync::Mutex, mpsc and ArcSwap assumed sequentially consistent); socket errors, tokio '
+        'scheduling and policy changes during a session are not modelled',
+        'addpath_tx = (effective_max > 1) is assumed (the FSM/codec agreement is property C16); the model and the '
+        'correspondence cover the mismatch configuration, the theorems do not']
+    assumptions = ['truthful change stream (Spec/ExportTxSpec.v truthful_run)',
+                   'no LLGR-stale marking of a source (open finding C01-llgr-stale-not-resent)',
+                   'route refresh processed with an empty event channel (open finding C01-refresh-race)']
 
     # ---- rendering
     def case_to_val(self, c):
